@@ -208,12 +208,18 @@ def c11(tier, seed, work):
 def c04(tier, seed, work):
     a, i = suite_for(seed, 3)
     if tier == "quick":
-        fams = [dict(name="c04-forge", insess=True, cmds="CmdsAB", maxcalls=2, maxatt=2, kinds="KindsForge", auth=a, integ=i)]
+        a2, i2 = suite_for(seed, 6)
+        fams = [dict(name="c04-forge", insess=True, cmds="CmdsAB", maxcalls=2, maxatt=2, kinds="KindsForge", auth=a, integ=i),
+                # group-extension (DCMI) commands and a command without a response body take other paths through the checks
+                dict(name="c04-forge-group", insess=True, cmds="CmdsGH", maxcalls=2, maxatt=2, kinds="KindsForge", auth=a2, integ=i2),
+                dict(name="c04-forge-nobody", insess=True, cmds="CmdsAC", maxcalls=2, maxatt=2, kinds="KindsForge", auth=a, integ=i)]
         mc = [("MCConsole", "MC_Console_sess_quick.cfg")]
     else:
         fams = [dict(name="c04-forge-%d-%d" % s, insess=True, cmds="CmdsAB", maxcalls=2, maxatt=2, kinds="KindsForge", auth=s[0], integ=s[1])
                 for s in SUITES]
         fams.append(dict(name="c04-forge3", insess=True, cmds="CmdsAR", maxcalls=1, maxatt=4, kinds="KindsForge", auth=a, integ=i))
+        fams.append(dict(name="c04-forge-group", insess=True, cmds="CmdsAGH", maxcalls=2, maxatt=2, kinds="KindsForge", auth=a, integ=i))
+        fams.append(dict(name="c04-forge-nobody", insess=True, cmds="CmdsAC", maxcalls=2, maxatt=2, kinds="KindsForge", auth=a, integ=i))
         mc = [("MCConsole", "MC_Console_sess.cfg")]
     res = console_check("C04", tier, seed, work, mc, fams, COMMON_ASSUME)
     # tampering and forgery catalogue (GenForge.tla), validated with the generic walk trace spec
